@@ -287,7 +287,7 @@ func registeredWithInit(a *E3, root *ssa.Function, al *ssa.Alloc) bool {
 						isInit = true
 					}
 				}
-				if isInit && derives(args[0]) && derives(args[1]) {
+				if isInit && derives(args[0]) && derives(args[1]) && initOnEveryExit(al, call) {
 					found = true
 				}
 			}
@@ -489,4 +489,34 @@ func indexOfInstr(f *ssa.Function, target ssa.Instruction) int {
 		}
 	}
 	return 0
+}
+
+// initOnEveryExit: the registration call lies in the function that allocates the container and its block dominates every returning
+// block reachable from the allocation — no path hands the container out unregistered (Ego() == nil).
+func initOnEveryExit(al *ssa.Alloc, call *ssa.Call) bool {
+	f := al.Parent()
+	if call.Parent() != f {
+		return false
+	}
+	seen := map[*ssa.BasicBlock]bool{}
+	var stack []*ssa.BasicBlock
+	stack = append(stack, al.Block())
+	for len(stack) > 0 {
+		b := stack[len(stack)-1]
+		stack = stack[:len(stack)-1]
+		if seen[b] {
+			continue
+		}
+		seen[b] = true
+		if b == call.Block() {
+			continue // everything beyond passes through the registration
+		}
+		if len(b.Instrs) > 0 {
+			if _, isRet := b.Instrs[len(b.Instrs)-1].(*ssa.Return); isRet {
+				return false // a return reached from the allocation without passing the registration
+			}
+		}
+		stack = append(stack, b.Succs...)
+	}
+	return true
 }
